@@ -460,9 +460,7 @@ def expected(tab, op):
             e["ret"] = ("c", col)
             return e
         if lhs in ("x", "y", "z"):
-            if v[0] != "c":
-                return None
-            e["coord"][lhs.upper()] = col
+            e["coord"][lhs.upper()] = col    # a number is written at every observation (fix 144a468)
             return e
         if lhs in RESERVED:
             return None
@@ -545,9 +543,9 @@ class P(Prop):
                "addAnalyticalFeature: the model writes through the name at every index (Python hoists the index lookup); the algorithms used are read-only",
                "out of the model (never generated): 'timestamp' as an operand, assignment to 't', operators other than = + - * in expressions, empty names"]
     rule = ("histories of API calls over the names a b c #0 #u (+ reserved and unknown names) on tracks of 1..4 observations, values small integers (as floats) and NaN; "
-            "every history over a 32-call alphabet to depth 3 (thorough: 4) on a 2-observation track, random histories to depth 40; "
+            "every history over a 33-call alphabet to depth 3 (thorough: 4) on a 2-observation track, random histories to depth 40; "
             "operator objects of every family (unary / binary / scalar void incl. numpy-valued results, bracket-writing REVERSER, non-void aggregates), "
-            "expressions incl. self-assignment (n=n, n=n+0, x=x); a call that raises although all its operands exist and it is well formed is a failure; "
+            "expressions incl. self-assignment (n=n, n=n+0, x=x) and a number assigned to a coordinate (y=4, x=1+2); a call that raises although all its operands exist and it is well formed is a failure; "
             "non-trivial = the history deletes (remove, '#DELETE' or re-assignment by an expression) a column that is not the last one while other features are listed")
 
     # ---------------------------------------------------------------- setup
@@ -576,6 +574,7 @@ class P(Prop):
         ["expr", "c=a*2+nosuch", "m"], ["expr", "a=b", "m"], ["expr", "c=a*2+b*3", "m"],
         ["addaf", "a", ["affine", 2, 1], "m"], ["create", "x", "s", 1],
         ["expr", "a=a", "m"], ["conv", "a", "b", "c"], ["fft", "a", 1, None], ["rev", "a", "b"],
+        ["expr", "y=4", "m"],
     ]
 
     def exhaustive_scopes(self, tier):
@@ -631,6 +630,10 @@ class P(Prop):
         if rng.random() < 0.08:
             nm = rng.choice(["a", "b", "c", "x", "y", "z"])
             return nm + "=" + rng.choice([nm, nm + "+0", nm + "*1", "0+" + nm, "(" + nm + ")"])
+        if rng.random() < 0.04:
+            # a coordinate (or a feature) assigned a right-hand side that folds to a number
+            k = str(rng.randrange(0, 5))
+            return rng.choice(["x", "y", "z", "x", "y", "z", "a", "t"]) + "=" + rng.choice([k, k + "+2", "2*" + k, "(" + k + "-1)*3"])
         k = rng.choice([1, 1, 2, 2, 3])
         s = term()
         for _ in range(k - 1):
